@@ -163,6 +163,19 @@ impl Monitor for C17 {
                 bk.accts.insert(*k, a.clone());
             }
         }
+        // the trader needs no intermediate tokens for the two-hop, but does for a lone second leg: lend them in the clone
+        if let Some(user) = w.users.iter().position(|u| u.key == t.authority) {
+            let mid_acct = w.user_token(user, out1);
+            if mid_acct != t.acct_in && mid_acct != t.acct_out {
+                if let Some(a) = bk.accts.get_mut(&mid_acct) {
+                    let a = std::sync::Arc::make_mut(a);
+                    if a.data.len() >= 72 {
+                        let cur = u64::from_le_bytes(a.data[64..72].try_into().unwrap());
+                        a.data[64..72].copy_from_slice(&cur.saturating_add(1 << 62).min(u64::MAX / 2).to_le_bytes());
+                    }
+                }
+            }
+        }
         let (o1, b1) = w.simulate(&bk, &ix_first);
         if !o1.ok() {
             fail(acc, "single_leg_fails", format!("two-hop succeeded but leg {first} alone fails with {:?}", o1.err));
